@@ -9,7 +9,7 @@ from .. import gen as G
 NAMES = ["src", "lib", "pkg", "sub", "deep", "er", "x", "y", "z", "a", "b", "c", "d", "K", "m", "w", "main",
          "tests", "test", "build", "dist", "venv", "node_modules", "t", "p", "i", "v"]
 EXTS = ["py", "js", "ts", "java", "c", "cpp", "cs", "txt", "h", "json"]
-SPELLINGS = ("dot", "rel_parent", "abs", "dotdot", "abs_dotdot", "rel_outside", "trailing", "symlink", "symlink_abs")
+SPELLINGS = ("dot", "rel_parent", "abs", "dotdot", "abs_dotdot", "rel_outside", "trailing", "symlink", "symlink_abs", "symlink_dotdot")
 
 
 def pattern(rng, placed):
@@ -99,6 +99,12 @@ def gen(i, R, tier, noninterference=True):
                 ops.append({"op": "delete", "path": rng.choice(sorted(placed))})
             elif r < 0.7:
                 ops.append({"op": "set_cli", "patterns": [pattern(rng, placed)]})
+            elif r < 0.85 and placed:
+                # new bytes under an existing name, with a modification time older than the last scan
+                p = rng.choice(sorted(placed))
+                ops.append({"op": "advance_clock", "seconds": 5})
+                ops.append({"op": "write", "path": p, "content": G.pick_content(rng, G.lang_of_path(p) or "py", 0.0, 0.5),
+                            "mtime_delta": -rng.choice((60, 86400 * 30))})
             else:
                 p = G.new_path(rng)
                 ops.append({"op": "write", "path": p, "content": G.pick_content(rng, G.lang_of_path(p), 0.0)})
